@@ -218,12 +218,23 @@ class Obligation:
         self.smt2 = smt2
 
 
+class Prefix(list):
+    """a decision prefix + the fingerprints (z3 structural hashes) of the conditions decided"""
+    fps = ()
+
+
+class ReplayDivergence(Exception):
+    pass
+
+
 class Ctx:
     """One execution path.  Forks are explored by re-execution with a decision prefix."""
 
-    def __init__(self, program, prefix=(), timeout_ms=20000, record_smt=False):
+    def __init__(self, program, prefix=(), timeout_ms=20000, record_smt=False, nested=False):
         self.program = program
         self.prefix = list(prefix)
+        self.prefix_fps = list(getattr(prefix, "fps", ()))   # fingerprints of the conditions decided
+        self.fps = []
         self.pos = 0
         self.decisions = []
         self.alts = []          # decision lists to explore later
@@ -259,8 +270,11 @@ class Ctx:
         self.ghost = {}
         self.notes = []
         self.cur_func = None
-        sym.set_overflow_hook(self._overflow)
-        sym.reset_refinements()
+        if not nested:
+            # a nested context (module initialisation while a path is being run) must not disturb the
+            # refinements / overflow hook of the running path
+            sym.set_overflow_hook(self._overflow)
+            sym.reset_refinements()
 
     # ----------------------------------------------------------------- heap
     def alloc(self, obj):
@@ -371,10 +385,16 @@ class Ctx:
             if self._check(*(g + [e])) == z3.unsat:
                 return False
             raise ImpureAbort()
+        fp = e.hash()
         if self.pos < len(self.prefix):
             d = self.prefix[self.pos]
+            if self.pos < len(self.prefix_fps) and self.prefix_fps[self.pos] != fp:
+                # the re-execution does not meet the condition this decision was recorded for: the
+                # alternative would explore something else than intended (coverage hole)
+                raise ReplayDivergence("decision %d of %d replays on a different condition" % (self.pos, len(self.prefix)))
             self.pos += 1
             self.decisions.append(d)
+            self.fps.append(fp)
             self.pc_add(e if d else z3.Not(e))
             return d
         rt = self._check(e)
@@ -385,11 +405,14 @@ class Ctx:
             raise PathEnd()
         self.pos += 1
         if can_t and can_f:
-            self.alts.append(self.decisions + [False])
+            alt = Prefix(self.decisions + [False])
+            alt.fps = self.fps + [fp]
+            self.alts.append(alt)
             d = True
         else:
             d = can_t
         self.decisions.append(d)
+        self.fps.append(fp)
         self.pc_add(e if d else z3.Not(e))
         return d
 
